@@ -589,3 +589,372 @@ Proof. apply results_own_in_mode. discriminate. Qed.
 (* verified checker for the results of an observed run *)
 Lemma all_own_b_sound orc ths : all_own_b orc ths = true -> Forall (results_own orc) ths.
 Proof. apply all_own_b_spec. Qed.
+
+(* ================================================================== *)
+(* No query ends in an exception: if no trial fails (every score is finite) and the optimizer
+   is not cache_only, every step that reads shared state finds what it looks for.  Needs
+   existence invariants (the safety theorem above only needs "if present then right"). *)
+Section Live.
+Variable cfg : config.
+Variable orc : oracle.
+Hypothesis Hco : c_cache_only cfg = false.
+Hypothesis Hfin : forall q o k, o_score orc q o k <> None.
+
+Definition valid_o (st : state) (o : oid) : Prop := o < length (hheap st).
+Definition valid_r (st : state) (ri : nat) : Prop := ri < length (rheap st).
+Definition has_best (st : state) (o : oid) : Prop :=
+  exists h, nth_error (hheap st) o = Some h /\ h_best h <> None.
+Definition has_key (st : state) (ri k : nat) : Prop :=
+  exists r e, nth_error (rheap st) ri = Some r /\ aget k (r_cache r) = Some e.
+Definition has_slot (st : state) (ri : nat) (t : tid) : Prop :=
+  exists r o, nth_error (rheap st) ri = Some r /\ aget t (r_slots r) = Some o /\ has_best st o.
+
+Definition valid_x (st : state) (x : nat) : Prop :=
+  match c_mode cfg with MAutoCached => valid_r st x | _ => valid_o st x end.
+
+Definition st_live (st : state) : Prop :=
+  (forall t x, aget t (bythread st) = Some x -> valid_x st x) /\
+  (c_mode cfg = MReusable -> valid_r st 0).
+
+Definition live_pc (st : state) (t : tid) (p : pc) : Prop :=
+  match p with
+  | PIdle | PALookup _ => True
+  | PAStore _ x => valid_x st x
+  | PRHash _ ri => valid_r st ri
+  | PRAlloc q ri m => valid_r st ri /\ (m = false -> has_key st ri (o_fp orc q))
+  | PRTrial q ri m o _ => valid_r st ri /\ (m = false -> has_key st ri (o_fp orc q)) /\ valid_o st o
+  | PRPublish q ri m o _ => valid_r st ri /\ (m = false -> has_key st ri (o_fp orc q)) /\ has_best st o
+  | PRCacheSet _ ri _ => valid_r st ri /\ has_slot st ri t
+  | PRCacheOld q ri _ => has_key st ri (o_fp orc q) /\ has_slot st ri t
+  | PRFetch _ ri => has_slot st ri t
+  | PRCacheGet q ri => has_key st ri (o_fp orc q)
+  | PHTrial _ o _ => valid_o st o
+  end.
+
+Definition no_raise (th : thread) : Prop := forall q, ~ In (q, None) (t_done th).
+Definition thread_live (st : state) (th : thread) : Prop :=
+  no_raise th /\ live_pc st (t_id th) (t_pc th).
+
+(* what a step of thread t may do to the facts other threads rely on: nothing *)
+Definition mono (t : tid) (st st' : state) : Prop :=
+  (forall o, valid_o st o -> valid_o st' o) /\
+  (forall o, has_best st o -> has_best st' o) /\
+  (forall ri, valid_r st ri -> valid_r st' ri) /\
+  (forall ri k, has_key st ri k -> has_key st' ri k) /\
+  (forall ri t2, t2 <> t -> has_slot st ri t2 -> has_slot st' ri t2).
+
+Lemma mono_refl t st : mono t st st.
+Proof. repeat split; auto. Qed.
+
+Lemma valid_x_mono t st st' x : mono t st st' -> valid_x st x -> valid_x st' x.
+Proof. intros (M1 & _ & M3 & _) H. unfold valid_x in *. destruct (c_mode cfg); auto. Qed.
+
+Lemma live_pc_mono t1 st st' t p : mono t1 st st' -> t <> t1 -> live_pc st t p -> live_pc st' t p.
+Proof.
+  intros M Hne H. pose proof (fun x => valid_x_mono _ _ _ x M) as Mx.
+  destruct M as (M1 & M2 & M3 & M4 & M5).
+  destruct p; cbn in *; auto; intuition auto.
+Qed.
+
+Lemma live_pc_mono_self t st st' p :
+  mono t st st' -> (forall ri, has_slot st ri t -> has_slot st' ri t) -> live_pc st t p -> live_pc st' t p.
+Proof.
+  intros M Hs H. pose proof (fun x => valid_x_mono _ _ _ x M) as Mx.
+  destruct M as (M1 & M2 & M3 & M4 & M5).
+  destruct p; cbn in *; auto; intuition auto.
+Qed.
+
+Lemma st_live_mono t st st' : mono t st st' -> bythread st' = bythread st -> st_live st -> st_live st'.
+Proof.
+  intros M E [H1 H2]. split.
+  - intros t0 x Ha. rewrite E in Ha. eapply valid_x_mono; eauto.
+  - intros Em. destruct M as (_ & _ & M3 & _). auto.
+Qed.
+
+(* --- the primitive state changes ----------------------------------- *)
+Lemma has_best_app st o l :
+  has_best st o -> has_best (mkS (hheap st ++ l) (rheap st) (bythread st)) o.
+Proof. intros (h & Hn & Hb). exists h. split; auto. cbn. now apply nth_error_app_keep. Qed.
+
+Lemma mono_alloc_h t st : mono t st (fst (alloc_h st)).
+Proof.
+  cbn. repeat split.
+  - intros o H. unfold valid_o in *. cbn. rewrite app_length. lia.
+  - intros o H. now apply has_best_app.
+  - auto.
+  - auto.
+  - intros ri t2 _ (r & o & Hn & Ha & Hb). exists r, o. repeat split; auto. now apply has_best_app.
+Qed.
+
+Lemma valid_alloc_h st : valid_o (fst (alloc_h st)) (snd (alloc_h st)).
+Proof. unfold valid_o. cbn. rewrite app_length. cbn. lia. Qed.
+
+Lemma mono_alloc_r t st : mono t st (fst (alloc_r st)).
+Proof.
+  cbn. repeat split; auto.
+  - intros ri H. unfold valid_r in *. cbn. rewrite app_length. lia.
+  - intros ri k (r & e & Hn & Ha). exists r, e. split; auto. cbn. now apply nth_error_app_keep.
+  - intros ri t2 _ (r & o & Hn & Ha & Hb). exists r, o. repeat split; auto. cbn. now apply nth_error_app_keep.
+Qed.
+
+Lemma valid_alloc_r st : valid_r (fst (alloc_r st)) (snd (alloc_r st)).
+Proof. unfold valid_r. cbn. rewrite app_length. cbn. lia. Qed.
+
+Lemma has_best_trial st o o2 q :
+  has_best st o2 -> has_best (upd_h st o (trial_on orc q o)) o2.
+Proof.
+  intros (h & Hn & Hb). unfold has_best. cbn.
+  destruct (Nat.eq_dec o o2) as [->|Hne].
+  - rewrite nth_error_upd_nth_same, Hn. cbn. eexists. split; [reflexivity|].
+    unfold trial_on. cbn. destruct (score_lt _ _); [discriminate|exact Hb].
+  - rewrite nth_error_upd_nth_other by auto. eauto.
+Qed.
+
+Lemma mono_trial t st o q : mono t st (upd_h st o (trial_on orc q o)).
+Proof.
+  repeat split; auto.
+  - intros o2 H. unfold valid_o in *. cbn. now rewrite length_upd_nth.
+  - intros o2 H. now apply has_best_trial.
+  - intros ri t2 _ (r & o2 & Hn & Ha & Hb). exists r, o2. repeat split; auto. now apply has_best_trial.
+Qed.
+
+Lemma slot_trial st o q ri t : has_slot st ri t -> has_slot (upd_h st o (trial_on orc q o)) ri t.
+Proof. intros (r & o2 & Hn & Ha & Hb). exists r, o2. repeat split; auto. now apply has_best_trial. Qed.
+
+(* after a trial (whose score is finite) the object has a best tree *)
+Lemma trial_gives_best st o q : valid_o st o -> has_best (upd_h st o (trial_on orc q o)) o.
+Proof.
+  intros Hv. unfold has_best. cbn. rewrite nth_error_upd_nth_same.
+  destruct (nth_error (hheap st) o) as [h|] eqn:E.
+  - cbn. eexists. split; [reflexivity|]. unfold trial_on. cbn.
+    destruct (score_lt _ _) eqn:El; [discriminate|].
+    destruct (h_best h) as [[s t]|] eqn:Eb; [discriminate|].
+    unfold best_score in El. rewrite Eb in El.
+    destruct (o_score orc q o (h_n h)) eqn:Es; [discriminate|]. exfalso. eapply Hfin; eauto.
+  - apply nth_error_None in E. unfold valid_o in Hv. lia.
+Qed.
+
+Lemma has_best_tree_of st o : has_best st o -> exists tr, tree_of st o = Some tr.
+Proof.
+  intros (h & Hn & Hb). unfold tree_of. rewrite Hn.
+  destruct (h_best h) as [[s t]|]; [eauto|congruence].
+Qed.
+
+Lemma valid_r_nth st ri : valid_r st ri -> exists r, nth_error (rheap st) ri = Some r.
+Proof.
+  intros H. destruct (nth_error (rheap st) ri) eqn:E; [eauto|].
+  apply nth_error_None in E. unfold valid_r in H. lia.
+Qed.
+
+Lemma mono_upd_slot t st ri o :
+  mono t st (upd_r st ri (fun r => mkR (aset t o (r_slots r)) (r_cache r))).
+Proof.
+  repeat split; auto.
+  - intros ri2 H. unfold valid_r in *. cbn. now rewrite length_upd_nth.
+  - intros ri2 k (r & e & Hn & Ha). unfold has_key. cbn.
+    destruct (Nat.eq_dec ri ri2) as [->|Hne].
+    + rewrite nth_error_upd_nth_same, Hn. cbn. eauto.
+    + rewrite nth_error_upd_nth_other by auto. eauto.
+  - intros ri2 t2 Hne (r & o2 & Hn & Ha & Hb). unfold has_slot. cbn.
+    destruct (Nat.eq_dec ri ri2) as [->|Hne2].
+    + rewrite nth_error_upd_nth_same, Hn. cbn. eexists. exists o2. split; [reflexivity|]. cbn.
+      rewrite aget_aset_other by auto. auto.
+    + rewrite nth_error_upd_nth_other by auto. eauto.
+Qed.
+
+Lemma slot_after_publish t st ri o :
+  valid_r st ri -> has_best st o ->
+  has_slot (upd_r st ri (fun r => mkR (aset t o (r_slots r)) (r_cache r))) ri t.
+Proof.
+  intros Hv Hb. destruct (valid_r_nth _ _ Hv) as [r Hr]. unfold has_slot. cbn.
+  rewrite nth_error_upd_nth_same, Hr. cbn. eexists. exists o. split; [reflexivity|]. cbn.
+  rewrite aget_aset_same. auto.
+Qed.
+
+Lemma mono_upd_cache t st ri k e :
+  mono t st (upd_r st ri (fun r => mkR (r_slots r) (aset k e (r_cache r)))) /\
+  (forall ri2, has_slot st ri2 t -> has_slot (upd_r st ri (fun r => mkR (r_slots r) (aset k e (r_cache r)))) ri2 t).
+Proof.
+  assert (Hs : forall ri2 t2, has_slot st ri2 t2 ->
+            has_slot (upd_r st ri (fun r => mkR (r_slots r) (aset k e (r_cache r)))) ri2 t2).
+  { intros ri2 t2 (r & o2 & Hn & Ha & Hb). unfold has_slot. cbn.
+    destruct (Nat.eq_dec ri ri2) as [->|Hne2].
+    + rewrite nth_error_upd_nth_same, Hn. cbn. eexists. exists o2. split; [reflexivity|]. auto.
+    + rewrite nth_error_upd_nth_other by auto. eauto. }
+  split; [|auto]. repeat split; auto.
+  - intros ri2 H. unfold valid_r in *. cbn. now rewrite length_upd_nth.
+  - intros ri2 k2 (r & e2 & Hn & Ha). unfold has_key. cbn.
+    destruct (Nat.eq_dec ri ri2) as [->|Hne].
+    + rewrite nth_error_upd_nth_same, Hn. cbn. exists (mkR (r_slots r) (aset k e (r_cache r))).
+      destruct (Nat.eq_dec k2 k) as [->|Hk].
+      * exists e. split; [reflexivity|]. cbn. apply aget_aset_same.
+      * exists e2. split; [reflexivity|]. cbn. rewrite aget_aset_other by auto. auto.
+    + rewrite nth_error_upd_nth_other by auto. eauto.
+Qed.
+
+Lemma no_raise_finish th q t : no_raise th -> no_raise (finish th q (Some t)).
+Proof. intros H q' [E|Hin]; [discriminate|]. eapply H; eauto. Qed.
+
+
+Ltac inv H := inversion H; subst; clear H.
+
+Lemma mono_same_heaps t st st' : hheap st' = hheap st -> rheap st' = rheap st -> mono t st st'.
+Proof.
+  intros E1 E2. unfold mono, valid_o, valid_r, has_best, has_key, has_slot, has_best.
+  rewrite E1, E2. repeat split; auto.
+Qed.
+
+Lemma live_dispatch st t q x : valid_x st x -> live_pc st t (dispatch cfg q x).
+Proof. unfold valid_x, dispatch. destruct (c_mode cfg); cbn; auto. Qed.
+
+Lemma has_key_valid st ri k : has_key st ri k -> valid_r st ri.
+Proof. intros (r & e & Hn & _). unfold valid_r. apply nth_error_Some. congruence. Qed.
+
+Ltac live_goal := split; [|split; [split|split]].
+
+Lemma step_live : forall st th st' th',
+  st_live st -> thread_live st th -> step_pc cfg orc st th = (st', th') ->
+  st_live st' /\ thread_live st' th' /\ t_id th' = t_id th /\ mono (t_id th) st st'.
+Proof.
+  intros st th st' th' Hst [Hnr Hpc] Hstep.
+  unfold step_pc in Hstep.
+  destruct (t_pc th) eqn:Epc; cbn in Hpc.
+  - (* PIdle *)
+    destruct (t_todo th) as [|q rest] eqn:Etodo.
+    + inv Hstep. live_goal; auto using mono_refl. rewrite Epc. exact I.
+    + destruct (c_mode cfg) eqn:Em.
+      * inv Hstep. live_goal; auto using mono_refl; try (apply no_raise_finish; exact Hnr); try (cbn; exact I).
+      * inv Hstep. live_goal; auto using mono_refl. cbn. apply Hst. exact Em.
+      * destruct (o_hard orc q); inv Hstep; live_goal; auto using mono_refl; try (apply no_raise_finish; exact Hnr); try (cbn; exact I).
+      * destruct (o_hard orc q); inv Hstep; live_goal; auto using mono_refl; try (apply no_raise_finish; exact Hnr); try (cbn; exact I).
+      * destruct (o_hard orc q).
+        -- pose proof (mono_alloc_h (t_id th) st) as M. pose proof (valid_alloc_h st) as V.
+           destruct (alloc_h st) as [st1 o] eqn:Ea. cbn in M, V. inv Hstep.
+           live_goal; auto.
+           eapply st_live_mono; eauto. unfold alloc_h in Ea. inv Ea. reflexivity.
+        -- inv Hstep. live_goal; auto using mono_refl; try (apply no_raise_finish; exact Hnr); try (cbn; exact I).
+  - (* PALookup *)
+    destruct (aget (t_id th) (bythread st)) as [x|] eqn:Eb.
+    + inv Hstep. live_goal; auto using mono_refl. apply live_dispatch. eapply Hst; eauto.
+    + destruct (c_mode cfg) eqn:Em.
+      all: try (pose proof (mono_alloc_h (t_id th) st) as M; pose proof (valid_alloc_h st) as V;
+                destruct (alloc_h st) as [st1 x] eqn:Ea; cbn in M, V; inv Hstep;
+                live_goal; auto;
+                [eapply st_live_mono; eauto; unfold alloc_h in Ea; inv Ea; reflexivity
+                |cbn; unfold valid_x; rewrite Em; exact V]).
+      pose proof (mono_alloc_r (t_id th) st) as M. pose proof (valid_alloc_r st) as V.
+      destruct (alloc_r st) as [st1 x] eqn:Ea. cbn in M, V. inv Hstep.
+      live_goal; auto.
+      * eapply st_live_mono; eauto. unfold alloc_r in Ea. inv Ea. reflexivity.
+      * cbn. unfold valid_x. rewrite Em. exact V.
+  - (* PAStore *)
+    inv Hstep.
+    assert (M : mono (t_id th) st (mkS (hheap st) (rheap st) (aset (t_id th) x (bythread st)))).
+    { apply mono_same_heaps; reflexivity. }
+    live_goal; auto.
+    + split.
+      * intros t0 x0 Ha. cbn in Ha. apply aget_aset_inv in Ha.
+        destruct Ha as [[_ ->]|[_ Ha]]; eapply valid_x_mono; eauto. eapply Hst; eauto.
+      * intros Em. destruct M as (_ & _ & M3 & _). apply M3. apply Hst. exact Em.
+    + apply live_dispatch. eapply valid_x_mono; eauto.
+  - (* PRHash *)
+    destruct (valid_r_nth _ _ Hpc) as [r Hr]. rewrite Hr in Hstep.
+    destruct (aget (o_fp orc q) (r_cache r)) as [e|] eqn:Ea; cbn in Hstep.
+    + destruct (c_ow cfg); cbn in Hstep; rewrite ?Hco in Hstep; inv Hstep; live_goal; auto using mono_refl;
+        cbn; try split; auto; try (intros _); exists r, e; auto.
+    + rewrite Hco in Hstep. inv Hstep. live_goal; auto using mono_refl. cbn. split; auto. discriminate.
+  - (* PRAlloc *)
+    destruct Hpc as [Hv Hk].
+    pose proof (mono_alloc_h (t_id th) st) as M. pose proof (valid_alloc_h st) as V.
+    destruct (alloc_h st) as [st1 o] eqn:Ea. cbn in M, V. inv Hstep.
+    live_goal; auto.
+    + eapply st_live_mono; eauto. unfold alloc_h in Ea. inv Ea. reflexivity.
+    + cbn. destruct M as (M1 & M2 & M3 & M4 & M5). auto.
+  - (* PRTrial *)
+    destruct Hpc as (Hv & Hk & Ho).
+    pose proof (mono_trial (t_id th) st o q) as M.
+    pose proof (trial_gives_best st o q Ho) as Hb.
+    assert (Hst1 : st_live (upd_h st o (trial_on orc q o))) by (eapply st_live_mono; eauto).
+    destruct (loop_ends orc q o st n).
+    + destruct (has_best_tree_of _ _ Hb) as [tr Ht]. rewrite Ht in Hstep. inv Hstep.
+      live_goal; auto. cbn. destruct M as (M1 & M2 & M3 & M4 & M5). auto.
+    + inv Hstep. live_goal; auto. cbn. destruct M as (M1 & M2 & M3 & M4 & M5). auto.
+  - (* PRPublish *)
+    destruct Hpc as (Hv & Hk & Hb).
+    pose proof (mono_upd_slot (t_id th) st ri o) as M.
+    pose proof (slot_after_publish (t_id th) st ri o Hv Hb) as Hs.
+    assert (Hst1 : st_live (upd_r st ri (fun r => mkR (aset (t_id th) o (r_slots r)) (r_cache r))))
+      by (eapply st_live_mono; eauto).
+    destruct M as (M1 & M2 & M3 & M4 & M5).
+    destruct (c_ow cfg); [| |destruct m]; inv Hstep; live_goal; auto; cbn; auto;
+      repeat split; auto.
+  - (* PRCacheSet *)
+    destruct Hpc as (Hv & Hs).
+    destruct (mono_upd_cache (t_id th) st ri (o_fp orc q) con) as [M Hs1].
+    assert (Hst1 : st_live (upd_r st ri (fun r => mkR (r_slots r) (aset (o_fp orc q) con (r_cache r)))))
+      by (eapply st_live_mono; eauto).
+    destruct (c_call cfg); inv Hstep; live_goal; auto;
+      try (apply no_raise_finish; exact Hnr); try (cbn; exact I).
+    cbn. auto.
+  - (* PRCacheOld *)
+    destruct Hpc as (Hk & Hs). pose proof (has_key_valid _ _ _ Hk) as Hv.
+    destruct Hk as (r & e & Hr & Ha). rewrite Hr, Ha in Hstep.
+    destruct (score_lt _ _); inv Hstep; live_goal; auto using mono_refl;
+      try (apply no_raise_finish; exact Hnr); try (cbn; exact I).
+    cbn. auto.
+  - (* PRFetch *)
+    destruct Hpc as (r & o & Hr & Ha & Hb). rewrite Hr, Ha in Hstep.
+    destruct (has_best_tree_of _ _ Hb) as [tr Ht]. rewrite Ht in Hstep. inv Hstep.
+    live_goal; auto using mono_refl; try (apply no_raise_finish; exact Hnr); try (cbn; exact I).
+  - (* PRCacheGet *)
+    destruct Hpc as (r & e & Hr & Ha). rewrite Hr, Ha in Hstep. inv Hstep.
+    live_goal; auto using mono_refl; try (apply no_raise_finish; exact Hnr); try (cbn; exact I).
+  - (* PHTrial *)
+    pose proof (mono_trial (t_id th) st o q) as M.
+    pose proof (trial_gives_best st o q Hpc) as Hb.
+    assert (Hst1 : st_live (upd_h st o (trial_on orc q o))) by (eapply st_live_mono; eauto).
+    destruct (loop_ends orc q o st n).
+    + destruct (has_best_tree_of _ _ Hb) as [tr Ht]. rewrite Ht in Hstep. inv Hstep.
+      live_goal; auto; try (apply no_raise_finish; exact Hnr); try (cbn; exact I).
+    + inv Hstep. live_goal; auto. cbn. destruct M as (M1 & _). auto.
+Qed.
+
+Lemma run_live : forall sched st ths st' ths' tr,
+  NoDup (map t_id ths) -> st_live st -> Forall (thread_live st) ths ->
+  run cfg orc sched st ths = (st', ths', tr) ->
+  st_live st' /\ Forall (thread_live st') ths'.
+Proof.
+  induction sched as [|i sched IH]; intros st ths st' ths' tr Hnd Hst Hall Hrun; cbn in Hrun.
+  - inv Hrun. auto.
+  - destruct (nth_error ths i) as [th|] eqn:En; [|eauto].
+    destruct (finished th); [eauto|].
+    destruct (step_pc cfg orc st th) as [st1 th1] eqn:Es.
+    destruct (run cfg orc sched st1 (upd_nth i (fun _ => th1) ths)) as [[st2 ths2] tr2] eqn:Er.
+    inv Hrun.
+    assert (Hth : thread_live st th).
+    { rewrite Forall_forall in Hall. apply Hall. eapply nth_error_In; eauto. }
+    destruct (step_live _ _ _ _ Hst Hth Es) as (Hst1 & Hth1 & Hid & M).
+    eapply IH; [| exact Hst1 | | exact Er].
+    + rewrite (map_tid_upd _ _ _ _ En Hid). exact Hnd.
+    + eapply upd_forall; eauto.
+      intros th2 [Hn2 Hp2] Hne. split; auto. eapply live_pc_mono; eauto.
+Qed.
+
+Theorem no_query_raises : forall sched ths, NoDup (map t_id ths) -> Forall fresh_thread ths ->
+  forall st' ths' tr, run cfg orc sched (init_state cfg) ths = (st', ths', tr) ->
+  Forall no_raise ths'.
+Proof.
+  intros sched ths Hnd Hfresh st' ths' tr Hrun.
+  assert (Hst : st_live (init_state cfg)).
+  { split.
+    - intros t x Ha. unfold init_state in Ha. destruct (c_mode cfg); discriminate.
+    - intros Em. unfold init_state, valid_r. rewrite Em. cbn. lia. }
+  assert (Hall : Forall (thread_live (init_state cfg)) ths).
+  { rewrite Forall_forall in *. intros th Hin. destruct (Hfresh th Hin) as [Hp Hd]. split.
+    - intros q Hi. rewrite Hd in Hi. destruct Hi.
+    - rewrite Hp. exact I. }
+  destruct (run_live _ _ _ _ _ _ Hnd Hst Hall Hrun) as [_ H].
+  rewrite Forall_forall in *. intros th Hin. apply (H th Hin).
+Qed.
+
+End Live.
